@@ -183,7 +183,57 @@ def h_fit(h):
                 h.close(dA[i][k][1], other[i][k][1], f"same-references-whatever-the-{name}")
 
 
+def h_refit_nested(h):
+    """history: a model whose dependence functions are nested (mu uses sigma's function) is fitted to A and then
+    re-fitted to B: after the re-fit every dependence function holds a fit to B's pairs made after the re-fit of the
+    functions it uses"""
+    vc = shim.virocon()
+    DF = shim.mod("dependencies").DependenceFunction
+    N = h.cfg["rows"]
+
+    def lin(x, a=1.0, b=0.5):
+        return a + b * x
+
+    def nested(x, a=1.0, b=0.5, other=None):
+        return a + b * other(x)
+
+    order = h.cfg["order"]
+    sig = DF(lin)
+    mu = DF(nested, other=sig)
+    params = {"mu": mu, "sigma": sig} if order == "dependent-first" else {"sigma": sig, "mu": mu}
+    descs = [{"distribution": FAMILIES["Weibull"].make(), "intervals": _slicer("width")},
+             {"distribution": FAMILIES["LogNormal"].make(), "conditional_on": 0, "parameters": params}]
+    model = vc.GlobalHierarchicalModel(descs)
+    rowsA = [[0.5 + k, h.real(f"a{k}", 0.1, 2.9)] for k in range(N)]
+    rowsB = [[0.5 + k, h.real(f"b{k}", 0.1, 2.9)] for k in range(N)]
+    out = []
+    for tag, rows in (("A", rowsA), ("B", rowsB)):
+        rec = FitRecorder(h, tag)
+        with rec.install(), stubs.optimizer_stubs(h) as opt:
+            model.fit(h.arr(rows))
+        out.append((rec.calls, list(opt.calls)))
+    h.reach()
+    callsB, optB = out[1]
+    cd = model.distributions[1]
+    estB = [c["est"] for c in callsB[1:]]
+    for pname, dep, uses in (("sigma", sig, None), ("mu", mu, sig)):
+        mine = [k for k, o in enumerate(optB) if o["f"] is dep]
+        h.check(len(mine) >= 1, "re-fit-fits-every-dependence-function-again", pname)
+        if not mine:
+            continue
+        last = optB[mine[-1]]
+        h.close(list(dep.parameters.values()), list(np.ravel(npx.deep_strip(last["popt"]))),
+                "parameters-are-the-last-fit-of-the-re-fit")
+        h.close(list(last["y"]), [e[pname] for e in estB], "fitted-to-the-new-interval-estimates")
+        if uses is not None:
+            theirs = [k for k, o in enumerate(optB) if o["f"] is uses]
+            h.check(bool(theirs) and mine[-1] > theirs[-1], "dependent-re-fitted-after-the-function-it-uses",
+                    f"{pname}: calls {mine} vs {theirs}")
+
+
 def obligations(tier):
+    for order in ("dependent-first", "conditioner-first"):
+        yield ("refit_nested", h_refit_nested, {"rows": 3, "order": order}, {})
     for kind in ("width", "number", "points"):
         for perm in ("reverse", "rotate", "swap"):
             yield ("fit", h_fit, {"n_dim": 2, "slicer": kind, "chain": "chain", "perm": perm,
